@@ -21,8 +21,8 @@ let obj_of (s : ostring) : obj =
 
 let rec_of (s : ostring) : record =
   match split '.' s with
-  | [run; st; status; ver; o; cr; up; desc] ->
-    { r_wf = N0; r_fid = N0; r_run = ns run;
+  | [run; st; status; ver; o; cr; up; desc; fid] ->
+    { r_wf = N0; r_fid = ns fid; r_run = ns run;
       r_state = (match rs_of_code (zs st) with Some x -> x | None -> RSUnknown);
       r_status = zs status; r_obj = obj_of o; r_created = zs cr; r_updated = zs up; r_ver = zs ver; r_reason = N0;
       r_desc = (if desc = "?" then z_of_int (-999999) else zs desc) }
@@ -50,6 +50,7 @@ let ufun_of (code : ostring) : ufun =
   | 3 -> UFTimer (z_of_int s, nat_of_int j)
   | 4 -> UFTimeout (z_of_int s, nat_of_int j)
   | 5 -> UFHook (match rs_of_code (z_of_int rest) with Some x -> x | None -> RSUnknown)
+  | 7 -> UFFilter (n_of_int rest)
   | _ -> UFDelete
 
 let uret_of (s : ostring) : uret =
